@@ -14,6 +14,9 @@ TREES = {
     "T2": dict(blocks=["g", "a1", "a2", "b1", "b2", "b3", "c2", "c3"], g="g",
                parent={"a1": "g", "a2": "a1", "b1": "g", "b2": "b1", "b3": "b2", "c2": "a1", "c3": "c2"},
                txs={"g": [], "a1": ["t1"], "a2": ["t2"], "b1": ["t1", "t3"], "b2": [], "b3": ["t2"], "c2": ["t3"], "c3": ["t2"]}),
+    "T3": dict(blocks=["g", "a1", "a2", "a3", "b1", "b2", "x3", "x4", "c3", "c4"], g="g",
+               parent={"a1": "g", "a2": "a1", "a3": "a2", "b1": "g", "b2": "b1", "x3": "b2", "x4": "x3", "c3": "b2", "c4": "c3"},
+               txs={"g": [], "a1": ["t1"], "a2": ["t2"], "a3": [], "b1": ["t1"], "b2": ["t3"], "x3": ["t2"], "x4": [], "c3": ["t2"], "c4": ["t4"]}),
 }
 
 
